@@ -145,6 +145,9 @@ var usEdits = map[string][][]hist.Edit{
 	"counter":   {{{K: "cinc", V: 3}}, {{K: "ninc", V: -2}}},
 	"tree":      {{{K: "xtxt", I: 1, S: "e"}}, {{K: "xdel", I: 1, J: 1, V: 1}}, {{K: "xelm", I: 1, S: "k"}}},
 	"arraymove": {{{K: "amov", I: 0, J: 1}}, {{K: "adel", I: 1}}, {{K: "ains", I: 1, V: 4}}},
+	// object members that are containers with content of their own: deleting one and undoing the
+	// deletion has to bring the content back on every replica
+	"members": {{{K: "otext", Key: "k1", S: "ab"}}, {{K: "odel", Key: "k1"}}, {{K: "oarr", Key: "k1", V: 5}}},
 }
 
 func runUSHistory(flavor string, steps []usStep) (kind, detail string, reuse bool) {
@@ -154,7 +157,16 @@ func runUSHistory(flavor string, steps []usStep) (kind, detail string, reuse boo
 
 func usSig(flavor string, steps []usStep, finals [2]string, reuse bool) map[string]any {
 	g, o := usSignature(flavor, append([]usStep{}, steps...), finals)
-	return map[string]any{"flavor": flavor, "reuses_identity": reuse, "gc_only": g, "order_only": o}
+	// did both clients edit (or undo/redo)?  Finding P20 needs another client that names the
+	// re-used identity; a history in which one client does everything and the other only syncs
+	// is not an instance of it
+	acted := map[int]bool{}
+	for _, st := range steps {
+		if st.k == "e" || st.k == "z" || st.k == "y" {
+			acted[st.c] = true
+		}
+	}
+	return map[string]any{"flavor": flavor, "reuses_identity": reuse, "gc_only": g, "order_only": o, "concurrent_editor": len(acted) > 1}
 }
 
 // usSignature: does the failure need garbage collection at all, and do the replicas hold the same
@@ -272,7 +284,7 @@ func runUndoSync(cfg *config) error {
 	if v := x["len"]; v != "" {
 		fmt.Sscanf(v, "%d", &maxLen)
 	}
-	flavors := []string{"object", "array", "text", "counter", "tree", "arraymove"}
+	flavors := []string{"object", "array", "text", "counter", "tree", "arraymove", "members"}
 	if f := x["flavor"]; f != "" {
 		flavors = strings.Split(f, "+")
 	}
